@@ -116,6 +116,29 @@ fn first_mode(readers: u64, delay: u64) {
     println!("{} {}", reads.iter().map(|r| r.to_string()).collect::<Vec<_>>().join(","), fin);
 }
 
+/// `lock()` must carry the stream's parser state over: each case writes the first part through the unlocked stream,
+/// flushes, locks, and writes the rest through the lock guard.  Keep in sync with vlib/c09.py::LOCKSEQ.
+fn lockseq_mode() {
+    let out_cases: [(&[u8], &[u8]); 3] = [(b"name\x1b[3", b"8;5;208m value\x1b[0m\n"), (b"t\x1b]0;ti", b"tle\x07x\n"), (b"a\x1b[1mb", b"\x1b[0mc\n")];
+    for (a, b) in out_cases {
+        let mut s = anstream::stdout();
+        s.write_all(a).expect("write");
+        s.flush().expect("flush");
+        let mut l = s.lock();
+        l.write_all(b).expect("write");
+        l.flush().expect("flush");
+    }
+    let err_cases: [(&[u8], &[u8]); 2] = [(b"na\xc3", b"\xafve\n"), (b"warn\x1b[", b"33m: x\x1b[m\n")];
+    for (a, b) in err_cases {
+        let mut s = anstream::stderr();
+        s.write_all(a).expect("write");
+        s.flush().expect("flush");
+        let mut l = s.lock();
+        l.write_all(b).expect("write");
+        l.flush().expect("flush");
+    }
+}
+
 fn print_mode(threads: u64, per: u64, seed: u64) {
     let barrier = Arc::new(Barrier::new(threads as usize));
     let hs: Vec<_> = (0..threads)
@@ -264,6 +287,7 @@ fn main() {
         Some("print") => print_mode(n(2, 4), n(3, 100), n(4, 1)),
         Some("register") => register_mode(n(2, 2), n(3, 2), n(4, 100), n(5, 1)),
         Some("first") => first_mode(n(2, 6), n(3, 0)),
+        Some("lockseq") => lockseq_mode(),
         Some("canary-race") => canary_race(),
         _ => {
             eprintln!("usage: vh-mt print|register|canary-race ...");
